@@ -2,13 +2,16 @@ package engine
 
 import (
 	"fmt"
+	"io"
 	"sort"
 	"strings"
 
 	"github.com/cockroachdb/pebble"
+	"github.com/cockroachdb/pebble/batchrepr"
 	"github.com/cockroachdb/pebble/verifsim/kvmodel"
 	"github.com/cockroachdb/pebble/verifsim/simfs"
 	"github.com/cockroachdb/pebble/verifsim/simrt"
+	"github.com/cockroachdb/pebble/wal"
 )
 
 // durPoint says: once the disk log reached ackIdx, the first pos groups of the
@@ -299,6 +302,9 @@ func groupsOverlap(a, b *kvmodel.Group) bool {
 // reads everything and matches it against the history. It returns the match
 // (nil plus a description on a violation).
 func (h *dbHarness) verifyImage(img *simfs.Disk, c *crashCtx, what string) (*recoverMatch, string) {
+	if d := h.checkLogicalWAL(img); d != "" {
+		return nil, what + ": " + d
+	}
 	opts := h.makeOptionsOn(img)
 	// Open at the lowest supported version so that the version found on disk
 	// is what the recovered DB reports (Open ratchets up to the option).
@@ -422,7 +428,7 @@ func (h *dbHarness) checkRecoveredFMV(got, k int, img *simfs.Disk) string {
 	min := 0
 	if h.segment > 1 {
 		// the version this incarnation found on disk was already durable
-		min = h.fmvSegStart
+		min = h.fmvCarried
 	}
 	for _, f := range h.fmvFloors {
 		if f.idx <= k && f.v > min {
@@ -568,6 +574,11 @@ func (h *dbHarness) pickForkIndices(n int, all bool) []int {
 	for _, ds := range h.durScans {
 		seen[ds.idx] = true
 	}
+	for _, k := range h.extraForks {
+		if k <= total {
+			seen[k] = true
+		}
+	}
 	if h.plan.Profile == "manifest" {
 		// every mutation of MANIFEST / marker files and every directory
 		// operation (before and after it), up to a cap
@@ -615,3 +626,100 @@ func (h *dbHarness) rebase(m *recoverMatch, inflight *groupInfo) {
 }
 
 var _ = strings.Join
+
+// noteUndurableVersion looks, after a client operation, for tables or blob
+// files that the installed version references but whose directory entry or
+// data a crash could still lose. Installing a version edit promises that its
+// files are durable (C22), so such an instant is made a crash-fork point: the
+// ordinary recovery oracle then decides (Open must succeed and contain every
+// acknowledged-durable group). The monitor only steers the sampling of crash
+// points; it reports nothing by itself.
+func (h *dbHarness) noteUndurableVersion() {
+	if h.forkMode == "" || h.db == nil || len(h.extraForks) >= 12 {
+		return
+	}
+	files := h.db.VerifsimCurrentFiles()
+	nums := make([]uint64, 0, len(files))
+	for n := range files {
+		nums = append(nums, n)
+	}
+	sort.Slice(nums, func(i, j int) bool { return nums[i] < nums[j] })
+	for _, n := range nums {
+		for _, ext := range []string{"sst", "blob"} {
+			p := fmt.Sprintf("db/%06d.%s", n, ext)
+			if !h.disk.Exists(p) {
+				continue
+			}
+			if entry, data := h.disk.Durable(p); !entry || !data {
+				h.count("probe.version_references_undurable_file", 1)
+				h.extraForks = append(h.extraForks, h.disk.LogLen())
+				return
+			}
+		}
+	}
+}
+
+// checkLogicalWAL reads the logical WALs of a crash image back the way
+// recovery does (wal.Scan + OpenForRead over the primary and, with failover,
+// the secondary directory): within each logical WAL and across WALs in
+// ascending number, batches must come back in sequence-number order and no
+// batch twice (each batch starts at or after the end of the previous one's
+// sequence-number range). The read stops at the first error (a torn tail is
+// expected after a crash). C21, C07.
+func (h *dbHarness) checkLogicalWAL(img *simfs.Disk) string {
+	if h.cfg.DisableWAL {
+		return ""
+	}
+	was := img.NoYield
+	img.NoYield = true
+	defer func() { img.NoYield = was }()
+	var dirs []wal.Dir
+	for _, d := range []string{"db", "wal2"} {
+		if img.Exists(d) {
+			dirs = append(dirs, wal.Dir{FS: img, Dirname: d})
+		}
+	}
+	if len(dirs) == 0 {
+		return ""
+	}
+	logs, err := wal.Scan(dirs...)
+	if err != nil {
+		return fmt.Sprintf("wal.Scan failed on the crash image: %v", err)
+	}
+	var lastEnd uint64
+	var lastDesc string
+	for _, ll := range logs {
+		if ll.NumSegments() > 1 {
+			h.count("probe.wal_multi_segment", 1)
+		}
+		rd := ll.OpenForRead()
+		for {
+			rec, off, err := rd.NextRecord()
+			if err != nil {
+				break
+			}
+			b, err := io.ReadAll(rec)
+			if err != nil || len(b) < batchrepr.HeaderLen {
+				break
+			}
+			hdr, ok := batchrepr.ReadHeader(b)
+			if !ok {
+				break
+			}
+			seq := uint64(hdr.SeqNum)
+			if seq == 0 {
+				continue
+			}
+			desc := fmt.Sprintf("batch seqnum %d count %d in WAL %s at %s", seq, hdr.Count, ll.Num, off)
+			if seq < lastEnd {
+				rd.Close()
+				return fmt.Sprintf("reading the logical WAL back: %s comes after %s, whose sequence-number range ends at %d (out of order or replayed twice)", desc, lastDesc, lastEnd)
+			}
+			lastEnd = seq + uint64(hdr.Count)
+			lastDesc = desc
+			h.count("check.wal_record", 1)
+		}
+		rd.Close()
+	}
+	return ""
+}
